@@ -47,6 +47,7 @@ struct Geo {
   std::vector<Attr> atts;                      // atts[pos_att] is the POSITION attribute
   int pos_att = 0;
   std::string family;                          // description of how it was generated
+  int pad_stride = 0;                          // extra bytes between attribute values (byte_stride > element size; C03 allows it)
 };
 
 // ---------------------------------------------------------------------------------
@@ -78,12 +79,16 @@ inline void FillDraco(const Geo &g, draco::PointCloud *pc, draco::Mesh *mesh) {
       mesh->DeleteAttribute(sid);
     }
     GeometryAttribute ga;
-    ga.Init(at.type, nullptr, at.nc, at.dt, at.normalized, at.stride(), 0);
+    ga.Init(at.type, nullptr, at.nc, at.dt, at.normalized, at.stride() + g.pad_stride, 0);
     const bool identity = at.point_to_val.empty();
     std::unique_ptr<draco::PointAttribute> pa(new draco::PointAttribute(ga));
     if (identity) pa->SetIdentityMapping(); else pa->SetExplicitMapping(g.npoints);
     pa->Reset(at.nvals);
-    for (size_t i = 0; i < at.nvals; ++i) pa->SetAttributeValue(draco::AttributeValueIndex(static_cast<uint32_t>(i)), at.val(i));
+    if (g.pad_stride == 0) { for (size_t i = 0; i < at.nvals; ++i) pa->SetAttributeValue(draco::AttributeValueIndex(static_cast<uint32_t>(i)), at.val(i)); }
+    else {
+      std::vector<uint8_t> padded(at.stride() + g.pad_stride, 0xA5);  // SetAttributeValue copies byte_stride() bytes
+      for (size_t i = 0; i < at.nvals; ++i) { memcpy(padded.data(), at.val(i), at.stride()); pa->SetAttributeValue(draco::AttributeValueIndex(static_cast<uint32_t>(i)), padded.data()); }
+    }
     if (!identity) for (uint32_t p = 0; p < g.npoints; ++p) pa->SetPointMapEntry(draco::PointIndex(p), draco::AttributeValueIndex(at.point_to_val[p]));
     pa->set_unique_id(at.unique_id);
     const int id = pc->AddAttribute(std::move(pa));
